@@ -342,3 +342,38 @@ class FixedChangeDetector(ChangeDetector):
         n = len(X)
         cpts = sorted({int(c) for c in (self.changepoints or []) if 0 < int(c) < n})
         return ChangeDetector._format_sparse_output(cpts)
+
+
+class IndexLabelChangeDetector(ChangeDetector):
+    """A user-defined change detector that knows its changepoints as *index labels*: at fit time it reads the labels
+    of the given positions from the training data's index (time stamps, cycle counters, ...), at predict time it looks
+    those labels up in the index of the data it is given. On the data it was fitted on this returns the given
+    positions - provided the detector is handed the data with the index the caller supplied."""
+
+    _tags = {
+        "capability:missing_values": False,
+        "capability:multivariate": True,
+        "fit_is_empty": False,
+    }
+
+    def __init__(self, changepoints=None):
+        self.changepoints = changepoints
+        super().__init__()
+
+    def _fit(self, X, y=None):
+        n = len(X)
+        self.n_fit_ = n
+        pos = sorted({int(c) for c in (self.changepoints or []) if 0 < int(c) < n})
+        self.labels_ = self._index_of(X)[pos]
+        return self
+
+    @staticmethod
+    def _index_of(X):
+        import pandas as pd
+
+        return X.index if hasattr(X, "index") else pd.RangeIndex(len(X))  # arrays carry positions only
+
+    def _predict(self, X):
+        pos = [int(i) for i in self._index_of(X).searchsorted(self.labels_)] if len(self.labels_) else []
+        n = len(X)
+        return ChangeDetector._format_sparse_output(sorted({c for c in pos if 0 < c < n}))
